@@ -252,6 +252,14 @@ class EvalBinOp(Harness):
     def prefer(self, ctx):
         """preferences for counterexample models: small exponents, small non-zero values"""
         prefs = []
+        if self.op == 'Pow' and is_z3(ctx['r']):
+            # a rational a hair away from 1/3 under a cube: code that decides exactness of `exponent * r` in f64 accepts it
+            # (f64(1/3 + 2^-70) * 3.0 == 1.0), exact arithmetic does not - makes float-rounding slips reproducible
+            prefs.append(ctx['r'] == zreal(Fraction(1, 3) + Fraction(1, 2 ** 70)))
+            first = sorted(ctx['entL'])[0]
+            p0, e0 = ctx['entL'][first]
+            if is_z3(e0):
+                prefs.append(z3.And(zbool(p0), e0 == 3))
         for ent in (ctx['entL'], ctx['entR']):
             for k, (p, e) in ent.items():
                 if is_z3(e):
